@@ -25,7 +25,7 @@ def unhex(s):
 
 def parse_log(log):
     """-> dict(args_eval: {bid: n}, runs: [ {bid, arg, ty, const, calls{thread:count}} in order ], enters: [...])"""
-    out = {"args_eval": {}, "runs": [], "enters": []}
+    out = {"args_eval": {}, "runs": [], "enters": [], "ord": []}
     for ln in log:
         p = ln.split(" ")
         if p[0] == "args_eval":
@@ -33,6 +33,8 @@ def parse_log(log):
         elif p[0] == "enter":
             out["enters"].append({"bid": int(p[1]), "arg": unarg(p[2]), "ty": None if p[3] == "-" else unhex(p[3]),
                                   "const": None if p[4] == "-" else unhex(p[4])})
+        elif p[0] == "ord":
+            out["ord"].append({"bid": int(p[1]), "threads": int(p[2]), "rounds": int(p[3]), "bad": int(p[4])})
         elif p[0] == "run":
             calls = {}
             if p[5] != "-":
@@ -172,7 +174,7 @@ def judge(sp, cfg, res, want=None):
         add(prop, "runner_panicked", "the runner panicked: %s" % msg[:200])
         for other in sorted(want or ()):
             # no clause of a registry-level property is observable in a run that dies of a panic nothing in the registry raised
-            if other != prop and other in ("C03", "C04", "C05", "C13", "C14", "C15", "C17", "C18", "C19"):
+            if other != prop and other in ("C03", "C04", "C05", "C08", "C13", "C14", "C15", "C17", "C18", "C19"):
                 add(other, "runner_panicked", "the runner panicked instead of running the selected benchmarks with their options: %s" % msg[:200])
         if "C05" in (want or {"C05"}) and "divide by zero" in msg:
             add("C05", "print_panic", "printing statistics panicked: %s" % msg[:200])
@@ -238,6 +240,11 @@ def judge(sp, cfg, res, want=None):
         for k in (cg - cw):
             add("C13", "unselected_run", "case %s (bench %d) ran although the filters / ignore flags exclude it (x%d)" % (k[1:], k[0], (cg - cw)[k]))
             add("C20", "ran_but_not_expected", "case %s (bench %d) ran but must not (ignored / unselected)" % (k[1:], k[0]))
+    for o in log.get("ord", []):
+        obs["ord_rounds"] = obs.get("ord_rounds", 0) + o["rounds"]
+        if o["bad"]:
+            add("C08", "start_before_all_generated_e2e", "bench %d on %d threads: in %d of %d rounds a thread entered its first call before another thread had finished generating its inputs" % (
+                o["bid"], o["threads"], o["bad"], o["rounds"]))
     for bid, n in log["args_eval"].items():
         if n > 1:
             add("C17", "args_evaluated_twice", "argument list of bench %d was evaluated %d times in one process" % (bid, n))
